@@ -425,7 +425,7 @@ static int parse_value (Parser *ps, DBusMessageIter *it)
             }
           {
             const void *ap = arr;
-            if (!dbus_message_iter_append_fixed_array (&sub, esig[0], &ap, (int) n)) { free (arr); return 0; }
+            if (!dbus_message_iter_append_fixed_array (&sub, esig[0], &ap, (int) n)) { free (arr); dbus_message_iter_abandon_container (it, &sub); return 0; }
           }
           free (arr);
         }
@@ -433,13 +433,13 @@ static int parse_value (Parser *ps, DBusMessageIter *it)
         {
           while (*ps->p && *ps->p != ']')
             {
-              if (!parse_value (ps, &sub)) return 0;
+              if (!parse_value (ps, &sub)) { dbus_message_iter_abandon_container (it, &sub); return 0; }
               if (*ps->p == ',') ps->p++;
             }
         }
-      if (*ps->p != ']') return 0;
+      if (*ps->p != ']') { dbus_message_iter_abandon_container (it, &sub); return 0; }
       ps->p++;
-      return dbus_message_iter_close_container (it, &sub);
+      return dbus_message_iter_close_container (it, &sub);   /* a failed close already finalises the sub-iterator */
     }
   if (c == '(' || c == '{')
     {
@@ -448,12 +448,12 @@ static int parse_value (Parser *ps, DBusMessageIter *it)
       if (!dbus_message_iter_open_container (it, c == '(' ? DBUS_TYPE_STRUCT : DBUS_TYPE_DICT_ENTRY, NULL, &sub)) return 0;
       while (*ps->p && *ps->p != close)
         {
-          if (!parse_value (ps, &sub)) return 0;
+          if (!parse_value (ps, &sub)) { dbus_message_iter_abandon_container (it, &sub); return 0; }
           if (*ps->p == ',') ps->p++;
         }
-      if (*ps->p != close) return 0;
+      if (*ps->p != close) { dbus_message_iter_abandon_container (it, &sub); return 0; }
       ps->p++;
-      return dbus_message_iter_close_container (it, &sub);
+      return dbus_message_iter_close_container (it, &sub);   /* a failed close already finalises the sub-iterator */
     }
   if (c == 'v' && ps->p[1] == ':')
     {
@@ -464,8 +464,8 @@ static int parse_value (Parser *ps, DBusMessageIter *it)
       if (*ps->p != '=') return 0;
       ps->p++;
       if (!dbus_message_iter_open_container (it, DBUS_TYPE_VARIANT, sig, &sub)) return 0;
-      if (!parse_value (ps, &sub)) return 0;
-      return dbus_message_iter_close_container (it, &sub);
+      if (!parse_value (ps, &sub)) { dbus_message_iter_abandon_container (it, &sub); return 0; }
+      return dbus_message_iter_close_container (it, &sub);   /* a failed close already finalises the sub-iterator */
     }
   if (c && ps->p[1] == ':')
     {
@@ -739,6 +739,213 @@ static void cmd_valenum (int argc, char **argv)
     }
   ob_printf (&out, " n=%ld", count);
   free (alpha); free (prefix);
+}
+
+/* ------------------------------------------------------------------ */
+/* allocation-failure enumeration for library operations (C14)          */
+
+#include <bus/config-parser.h>
+
+static void fa_arm (int k) { _dbus_set_fail_alloc_failures (1); _dbus_set_fail_alloc_counter (k); }
+/* returns 1 if the armed failure fired */
+static int fa_disarm (void) { int fired = _dbus_get_fail_alloc_counter () == _DBUS_INT_MAX; _dbus_set_fail_alloc_counter (_DBUS_INT_MAX); return fired; }
+
+static DBusMessage *load_msg (const unsigned char *buf, size_t n, DBusMessageLoader **lp)
+{
+  DBusMessageLoader *l = _dbus_message_loader_new (); DBusMessage *m;
+  loader_feed (l, buf, n);
+  _dbus_message_loader_queue_messages (l);
+  m = _dbus_message_loader_pop_message (l);
+  *lp = l;
+  return m;
+}
+
+static int apply_edit (DBusMessage *m, const char *a)
+{
+  int ret = -1; char *v = NULL; int del;
+  size_t kl = strcspn (a, "=-");
+  del = a[kl] == '-';
+  if (!del && a[kl] == '=' && strncmp (a, "rserial", 7) != 0) v = field_dup (a);
+  if (!strncmp (a, "strip", 5)) ret = _dbus_message_remove_unknown_fields (m);
+  else if (!strncmp (a, "rserial=", 8)) ret = dbus_message_set_reply_serial (m, (dbus_uint32_t) strtoul (a + 8, NULL, 10));
+  else if (!strncmp (a, "path", 4)) ret = dbus_message_set_path (m, del ? NULL : v);
+  else if (!strncmp (a, "iface", 5)) ret = dbus_message_set_interface (m, del ? NULL : v);
+  else if (!strncmp (a, "member", 6)) ret = dbus_message_set_member (m, del ? NULL : v);
+  else if (!strncmp (a, "errname", 7)) ret = dbus_message_set_error_name (m, del ? NULL : v);
+  else if (!strncmp (a, "dest", 4)) ret = dbus_message_set_destination (m, del ? NULL : v);
+  else if (!strncmp (a, "sender", 6)) ret = dbus_message_set_sender (m, del ? NULL : v);
+  else if (!strncmp (a, "cinst", 5)) ret = dbus_message_set_container_instance (m, del ? NULL : v);
+  free (v);
+  return ret;
+}
+
+static void marshal_to (DBusMessage *m, OutBuf *o) { ob_reset (o); marshal_hex (m, o); }
+
+/* OOMEDIT <hex> <op> : every failing-allocation index of one header edit */
+static void cmd_oomedit (int argc, char **argv)
+{
+  size_t n; unsigned char *buf; OutBuf pre = { 0 }, post = { 0 }, want = { 0 }; int k, bad = 0, nfail = 0; char first[200] = "-";
+  DBusMessageLoader *l; DBusMessage *m;
+  if (argc < 3 || !(buf = unhex (argv[1], &n))) { ob_puts (&out, "ERR badargs"); return; }
+  m = load_msg (buf, n, &l);
+  if (!m) { ob_puts (&out, "ERR start-rejected"); _dbus_message_loader_unref (l); free (buf); return; }
+  marshal_to (m, &pre);
+  if (apply_edit (m, argv[2]) != 1) { ob_puts (&out, "ERR edit-failed-without-injection"); dbus_message_unref (m); _dbus_message_loader_unref (l); free (buf); return; }
+  marshal_to (m, &want);
+  dbus_message_unref (m); _dbus_message_loader_unref (l);
+  for (k = 0; k < 400; k++)
+    {
+      int b0, b1, ret, fired;
+      b0 = _dbus_get_malloc_blocks_outstanding ();
+      m = load_msg (buf, n, &l);
+      fa_arm (k);
+      ret = apply_edit (m, argv[2]);
+      fired = fa_disarm ();
+      if (!fired)
+        {
+          dbus_message_unref (m); _dbus_message_loader_unref (l);
+          break;
+        }
+      if (ret == 0)
+        {
+          nfail++;
+          marshal_to (m, &post);
+          if (post.len != pre.len || memcmp (post.s, pre.s, pre.len)) { if (!bad++) { snprintf (first, sizeof first, "k=%d:failed-edit-changed-message", k); fprintf (stderr, "PRE  %s\nPOST %s\n", pre.s, post.s); } }
+          if (apply_edit (m, argv[2]) != 1) { if (!bad++) snprintf (first, sizeof first, "k=%d:retry-failed", k); }
+        }
+      marshal_to (m, &post);
+      if (post.len != want.len || memcmp (post.s, want.s, want.len)) { if (!bad++) snprintf (first, sizeof first, "k=%d:result-differs(ret=%d)", k, ret); }
+      dbus_message_unref (m); _dbus_message_loader_unref (l);
+      b1 = _dbus_get_malloc_blocks_outstanding ();
+      if (b1 != b0) { if (!bad++) snprintf (first, sizeof first, "k=%d:leak(%d->%d)", k, b0, b1); }
+    }
+  ob_printf (&out, "OK indices=%d reported_failure=%d bad=%d first=%s", k, nfail, bad, first);
+  free (pre.s); free (post.s); free (want.s); free (buf);
+}
+
+/* OOMCOPY <hex> */
+static void cmd_oomcopy (int argc, char **argv)
+{
+  size_t n; unsigned char *buf; OutBuf pre = { 0 }, post = { 0 }; int k, bad = 0, nfail = 0; char first[200] = "-";
+  DBusMessageLoader *l; DBusMessage *m, *c;
+  if (argc < 2 || !(buf = unhex (argv[1], &n))) { ob_puts (&out, "ERR badargs"); return; }
+  m = load_msg (buf, n, &l);
+  if (!m) { ob_puts (&out, "ERR start-rejected"); _dbus_message_loader_unref (l); free (buf); return; }
+  marshal_to (m, &pre);
+  for (k = 0; k < 6; k++) { c = dbus_message_copy (m); if (c) dbus_message_unref (c); }   /* warm the message cache */
+  for (k = 0; k < 400; k++)
+    {
+      int b0 = _dbus_get_malloc_blocks_outstanding (), fired;
+      fa_arm (k);
+      c = dbus_message_copy (m);
+      fired = fa_disarm ();
+      if (c)
+        {
+          dbus_message_set_serial (c, dbus_message_get_serial (m));
+          marshal_to (c, &post);
+          if (post.len != pre.len || memcmp (post.s, pre.s, pre.len)) { if (!bad++) snprintf (first, sizeof first, "k=%d:copy-differs", k); }
+          dbus_message_unref (c);
+        }
+      else nfail++;
+      marshal_to (m, &post);
+      if (post.len != pre.len || memcmp (post.s, pre.s, pre.len)) { if (!bad++) snprintf (first, sizeof first, "k=%d:original-changed", k); }
+      if (_dbus_get_malloc_blocks_outstanding () != b0) { if (!bad++) snprintf (first, sizeof first, "k=%d:leak", k); }
+      if (!fired) break;
+      if (c && fired) { /* a failure that was absorbed */ }
+    }
+  dbus_message_unref (m); _dbus_message_loader_unref (l);
+  ob_printf (&out, "OK indices=%d reported_failure=%d bad=%d first=%s", k, nfail, bad, first);
+  free (pre.s); free (post.s); free (buf);
+}
+
+/* OOMBUILD <ctor> <arrays> <canon...> : every failing index of a construction program */
+static void cmd_oombuild (int argc, char **argv)
+{
+  OutBuf want = { 0 }; int k, bad = 0, nfail = 0; char first[200] = "-";
+  cmd_build (argc, argv);
+  if (strncmp (out.s, "bytes=", 6) != 0) { return; }
+  ob_puts (&want, out.s);
+  for (k = 0; k < 6; k++) { ob_reset (&out); cmd_build (argc, argv); }    /* saturate the message cache */
+  for (k = 0; k < 2000; k++)
+    {
+      int b0 = _dbus_get_malloc_blocks_outstanding (), fired;
+      ob_reset (&out);
+      fa_arm (k);
+      cmd_build (argc, argv);
+      fired = fa_disarm ();
+      if (!strncmp (out.s, "ERR", 3) || strstr (out.s, "=OOM")) nfail++;     /* a step (or marshal/copy) reported out-of-memory */
+      else if (out.len != want.len || memcmp (out.s, want.s, want.len)) { if (!bad++) { snprintf (first, sizeof first, "k=%d:result-differs", k); fprintf (stderr, "WANT %s\nGOT  %s\n", want.s, out.s); } }
+      if (_dbus_get_malloc_blocks_outstanding () != b0) { if (!bad++) snprintf (first, sizeof first, "k=%d:leak(%d->%d)", k, b0, _dbus_get_malloc_blocks_outstanding ()); }
+      if (!fired) break;
+    }
+  ob_reset (&out);
+  ob_printf (&out, "OK indices=%d reported_failure=%d bad=%d first=%s", k, nfail, bad, first);
+  free (want.s);
+}
+
+/* OOMRULE <hex rule text> */
+static void cmd_oomrule (int argc, char **argv)
+{
+  size_t n; unsigned char *buf; int k, bad = 0, nfail = 0; char first[200] = "-"; DBusString str; int base_ok;
+  BusMatchRule *r; DBusError err;
+  if (argc < 2 || !(buf = unhex (argv[1], &n))) { ob_puts (&out, "ERR badargs"); return; }
+  buf = realloc (buf, n + 1); buf[n] = 0;
+  _dbus_string_init_const (&str, (const char *) buf);
+  dbus_error_init (&err);
+  r = bus_match_rule_parse (NULL, &str, &err);
+  base_ok = r != NULL;
+  if (r) bus_match_rule_unref (r); else dbus_error_free (&err);
+  for (k = 0; k < 2000; k++)
+    {
+      int b0 = _dbus_get_malloc_blocks_outstanding (), fired;
+      dbus_error_init (&err);
+      fa_arm (k);
+      r = bus_match_rule_parse (NULL, &str, &err);
+      fired = fa_disarm ();
+      if (r)
+        { if (!base_ok) { if (!bad++) snprintf (first, sizeof first, "k=%d:accepted-under-oom", k); } bus_match_rule_unref (r); }
+      else
+        {
+          if (dbus_error_has_name (&err, DBUS_ERROR_NO_MEMORY)) nfail++;
+          else if (base_ok) { if (!bad++) snprintf (first, sizeof first, "k=%d:wrong-error:%s", k, err.name ? err.name : "unset"); }
+          if (!dbus_error_is_set (&err)) { if (!bad++) snprintf (first, sizeof first, "k=%d:no-error-set", k); }
+          dbus_error_free (&err);
+        }
+      if (_dbus_get_malloc_blocks_outstanding () != b0) { if (!bad++) snprintf (first, sizeof first, "k=%d:leak", k); }
+      if (!fired) break;
+    }
+  ob_printf (&out, "OK indices=%d reported_failure=%d bad=%d first=%s base_ok=%d", k, nfail, bad, first, base_ok);
+  free (buf);
+}
+
+/* OOMCONFIG <file> */
+static void cmd_oomconfig (int argc, char **argv)
+{
+  int k, bad = 0, nfail = 0; char first[200] = "-"; DBusString file; BusConfigParser *p; DBusError err;
+  if (argc < 2) { ob_puts (&out, "ERR badargs"); return; }
+  _dbus_string_init_const (&file, argv[1]);
+  dbus_error_init (&err);
+  p = bus_config_load (&file, TRUE, NULL, &err);
+  if (!p) { ob_printf (&out, "ERR base-load-failed:%s", err.message ? err.message : "?"); dbus_error_free (&err); return; }
+  bus_config_parser_unref (p);
+  for (k = 0; k < 20000; k++)
+    {
+      int b0 = _dbus_get_malloc_blocks_outstanding (), fired;
+      dbus_error_init (&err);
+      fa_arm (k);
+      p = bus_config_load (&file, TRUE, NULL, &err);
+      fired = fa_disarm ();
+      if (p) bus_config_parser_unref (p);
+      else
+        {
+          if (dbus_error_has_name (&err, DBUS_ERROR_NO_MEMORY)) nfail++;
+          else { if (!bad++) snprintf (first, sizeof first, "k=%d:wrong-error:%s", k, err.name ? err.name : "unset"); }
+          dbus_error_free (&err);
+        }
+      if (_dbus_get_malloc_blocks_outstanding () != b0) { if (!bad++) snprintf (first, sizeof first, "k=%d:leak(%d->%d)", k, b0, _dbus_get_malloc_blocks_outstanding ()); }
+      if (!fired) break;
+    }
+  ob_printf (&out, "OK indices=%d reported_failure=%d bad=%d first=%s", k, nfail, bad, first);
 }
 
 /* ------------------------------------------------------------------ */
@@ -1116,6 +1323,11 @@ int main (int argc, char **argv)
       else if (!strcmp (args[0], "BUILD")) cmd_build (n, args);
       else if (!strcmp (args[0], "EDIT")) cmd_edit (n, args);
       else if (!strcmp (args[0], "VALIDATE")) cmd_validate (n, args);
+      else if (!strcmp (args[0], "OOMEDIT")) cmd_oomedit (n, args);
+      else if (!strcmp (args[0], "OOMCOPY")) cmd_oomcopy (n, args);
+      else if (!strcmp (args[0], "OOMBUILD")) cmd_oombuild (n, args);
+      else if (!strcmp (args[0], "OOMRULE")) cmd_oomrule (n, args);
+      else if (!strcmp (args[0], "OOMCONFIG")) cmd_oomconfig (n, args);
       else if (!strcmp (args[0], "VALENUM")) cmd_valenum (n, args);
       else if (!strcmp (args[0], "RESET")) cmd_reset (n, args);
       else if (!strcmp (args[0], "CONNECT")) cmd_connect (n, args);
